@@ -181,7 +181,7 @@ theorem invMsgs_step (cfg : Cfg) (s : State) (e : Event) (s' : State) (hO : InvO
     repeat' split at hs
     all_goals (first | (cases hs; done) | skip)
     rename_i _ P hPq _ B hB _ C hC hg
-    obtain ⟨-, -, -, -, hBtp, -, -, -, -, hassign, hplace, -, hguard⟩ := hg
+    obtain ⟨-, -, -, -, hBtp, -, -, -, -, hassign, hplace, -, hguard, -⟩ := hg
     cases hs
     exact invMsgs_add hO hP hI hB hC hBtp hassign hplace hguard rfl rfl
   | begin_ c msgs =>
